@@ -580,3 +580,61 @@ v("c08-sql-select-rows-terms-ignore-using", "C08", SM,
   "        terms = {ci: None for ci in select_rows_node.sources[0].column_names}\n        suffix = [\"WHERE\"]")
 v("c08-sql-to_sql-using-empty", "C08", SM,
   "db_model=self, using=None, temp_id_source=temp_id_source", "db_model=self, using=set(), temp_id_source=temp_id_source")
+
+# ---------------------------------------------------------------- C14
+v("c14-map-columns-raw-source-name", "C14", SM,
+  "            ki: self.quote_identifier(vi)\n            for (vi, ki) in map_columns_node.column_remapping.items()",
+  "            ki: vi\n            for (vi, ki) in map_columns_node.column_remapping.items()")
+v("c14-order-by-raw-column", "C14", SM,
+  "                        self.quote_identifier(ci)\n                        + (\" DESC\" if ci in set(order_node.reverse) else \"\")",
+  "                        ci\n                        + (\" DESC\" if ci in set(order_node.reverse) else \"\")")
+v("c14-recordmap-key-hand-quoted", "C14", SM,
+  "                        + self.quote_string(str(source_col))\n                        + \" THEN a.\"",
+  "                        + \"'\" + str(source_col) + \"'\"\n                        + \" THEN a.\"")
+v("c14-recordmap-control-value-hand-quoted", "C14", SM,
+  "                            + self.quote_string(str(ct[cc][i]))\n",
+  "                            + self.string_quote + str(ct[cc][i]) + self.string_quote\n")
+v("c14-mapv-key-str", "C14", SM,
+  "\"WHEN \" + dbmodel.value_to_sql(k) + \" THEN \" + dbmodel.value_to_sql(v)",
+  "\"WHEN '\" + str(k) + \"' THEN \" + dbmodel.value_to_sql(v)")
+v("c14-table-values-raw-alias", "C14", SM,
+  "f\"{qv(v[v.columns[j]][i])} AS {qi(v.columns[j])}\"", "f\"{qv(v[v.columns[j]][i])} AS {v.columns[j]}\"")
+v("c14-view-name-from-table-name", "C14", SM,
+  "            view_name = \"table_reference_\" + str(temp_id_source[0])\n            temp_id_source[0] = temp_id_source[0] + 1\n            return data_algebra.near_sql.NearSQLUnaryStep(\n                terms=terms,\n                query_name=view_name,\n                quoted_query_name=self.quote_identifier(view_name),",
+  "            view_name = \"table_reference_\" + str(temp_id_source[0])\n            temp_id_source[0] = temp_id_source[0] + 1\n            return data_algebra.near_sql.NearSQLUnaryStep(\n                terms=terms,\n                query_name=view_name,\n                quoted_query_name='\"' + table_def.table_name + \"_\" + view_name + '\"',")
+v("c14-twin-view-name-quoted-from-table-name", "C14", SM,
+  "            view_name = \"table_reference_\" + str(temp_id_source[0])\n            temp_id_source[0] = temp_id_source[0] + 1\n            return data_algebra.near_sql.NearSQLUnaryStep(\n                terms=terms,\n                query_name=view_name,\n                quoted_query_name=self.quote_identifier(view_name),",
+  "            view_name = \"table_reference_\" + str(temp_id_source[0])\n            temp_id_source[0] = temp_id_source[0] + 1\n            return data_algebra.near_sql.NearSQLUnaryStep(\n                terms=terms,\n                query_name=view_name,\n                quoted_query_name=self.quote_identifier(table_def.table_name + \"_\" + view_name),", expect="silent")
+v("c14-annotation-not-cleaned", "C14", SM,
+  "            clean_anno = _clean_annotation(near_sql.annotation)\n            if clean_anno is not None:\n                sql_start = \"SELECT  -- \" + clean_anno\n        sql = (\n            [sql_start]\n            + self._indent_and_sep_terms(\n                terms_strs, sql_format_options=sql_format_options\n            )\n            + [\"FROM\"]\n            + [\n                sql_format_options.sql_indent + si\n                for si in near_sql.sub_sql.convert_subsql(",
+  "            clean_anno = near_sql.annotation.strip()\n            if clean_anno is not None:\n                sql_start = \"SELECT  -- \" + clean_anno\n        sql = (\n            [sql_start]\n            + self._indent_and_sep_terms(\n                terms_strs, sql_format_options=sql_format_options\n            )\n            + [\"FROM\"]\n            + [\n                sql_format_options.sql_indent + si\n                for si in near_sql.sub_sql.convert_subsql(")
+v("c14-clean-annotation-keeps-cr", "C14", SM,
+  "    annotation = re.sub(r\"(\\s|\\r|\\n)+\", \" \", annotation)", "    annotation = re.sub(r\"[ \\t\\n]+\", \" \", annotation)")
+v("c14-twin-clean-annotation-simpler-regex", "C14", SM,
+  "    annotation = re.sub(r\"(\\s|\\r|\\n)+\", \" \", annotation)", "    annotation = re.sub(r\"\\s+\", \" \", annotation)", expect="silent")
+v("c14-clean-annotation-result-dropped", "C14", SM,
+  "    annotation = re.sub(r\"(\\s|\\r|\\n)+\", \" \", annotation)", "    re.sub(r\"(\\s|\\r|\\n)+\", \" \", annotation)")
+v("c14-quote-string-no-doubling", "C14", SM,
+  "            + re.sub(self.string_quote, self.string_quote + self.string_quote, string)\n", "            + string\n")
+v("c14-twin-quote-string-replace", "C14", SM,
+  "            + re.sub(self.string_quote, self.string_quote + self.string_quote, string)\n",
+  "            + string.replace(self.string_quote, self.string_quote + self.string_quote)\n", expect="silent")
+v("c14-quote-identifier-no-reject", "C14", SM,
+  "        if self.identifier_quote in identifier:\n            raise ValueError(\n                \"did not expect \" + self.identifier_quote + \" in identifier\"\n            )\n        return self.identifier_quote + identifier + self.identifier_quote\n\n    def quote_table_name",
+  "        return self.identifier_quote + identifier + self.identifier_quote\n\n    def quote_table_name")
+v("c14-quote-identifier-strips", "C14", SM,
+  "        return self.identifier_quote + identifier + self.identifier_quote\n\n    def quote_table_name",
+  "        return self.identifier_quote + identifier.strip() + self.identifier_quote\n\n    def quote_table_name")
+v("c14-mysql-quote-identifier-lowercases", "C14", "MySQL.py",
+  "        return self.identifier_quote + identifier + self.identifier_quote", "        return self.identifier_quote + identifier.lower() + self.identifier_quote")
+v("c14-jointype-unchecked", "C14", "expr_rep.py",
+  "    if join_str not in allowed:\n        raise KeyError(f\"join type {join_str} not supported\")\n    return join_str", "    return join_str")
+v("c14-enc-term-alias-unquoted", "C14", SM,
+  "        if (v is None) or (v == k):\n            return self.quote_identifier(k)", "        if v is None:\n            return self.quote_identifier(k)")
+v("c14-to-sql-replace-tabs", "C14", SM,
+  "        sql_str_list = [v.rstrip() for v in sql_str_list]", "        sql_str_list = [v.rstrip().replace(\"\\t\", \" \") for v in sql_str_list]")
+v("c14-db-read-table-raw-name", "C14", "db_model.py",
+  "        tn = self.db_model.quote_table_name(table_name)\n        return self.read_query(f\"SELECT * FROM {tn}\")",
+  "        return self.read_query(f\"SELECT * FROM {table_name}\")")
+v("c14-concat-label-as-source", "C14", SM,
+  "{concat_node.id_column: data_algebra.expr_rep.Value(concat_node.a_name)}", "{concat_node.id_column: f\"'{concat_node.a_name}'\"}")
